@@ -54,17 +54,44 @@ Definition validate_changes (cur inc : jmap) (allow : list string) : bool :=
 Definition val_is (m : jmap) (k : string) (s : jstr) : bool :=
   match oget k m with Some (JStr x) => jstr_eqb x s | _ => false end.
 
+(* the first incoming record that is not yet paired and carries the key value;
+   returns its index (counted from i) and the record *)
+Fixpoint find_unmatched (k : string) (s : jstr) (incs : list jmap) (matched : list bool) (i : nat)
+  : option (nat * jmap) :=
+  match incs, matched with
+  | im :: r, m :: mr =>
+      if negb m && val_is im k s then Some (i, im) else find_unmatched k s r mr (S i)
+  | _, _ => None
+  end.
+
+Fixpoint set_nth {A} (i : nat) (v : A) (l : list A) : list A :=
+  match l, i with
+  | [], _ => []
+  | _ :: r, O => v :: r
+  | x :: r, S k => x :: set_nth k v r
+  end.
+
+(* the loop over the current records of allowsMultiParamsChange; [matched] marks
+   the incoming records that are already the counterpart of a current record *)
+Fixpoint allows_multi_from (reqs : list subreq) (curs incs : list jmap) (matched : list bool) : bool :=
+  match curs with
+  | [] => true
+  | c :: rest =>
+      match find (fun r => val_is c (sr_key r) (sr_val r)) reqs with
+      | None => false
+      | Some r =>
+          match find_unmatched (sr_key r) (sr_val r) incs matched 0 with
+          | None => false
+          | Some (j, i) =>
+              validate_changes c i (sr_attrs r)
+              && allows_multi_from reqs rest incs (set_nth j true matched)
+          end
+      end
+  end.
+
 Definition allows_multi (reqs : list subreq) (curs incs : list jmap) : bool :=
   Nat.eqb (List.length curs) (List.length incs)
-  && forallb (fun c =>
-       match find (fun r => val_is c (sr_key r) (sr_val r)) reqs with
-       | None => false
-       | Some r =>
-           match find (fun i => val_is i (sr_key r) (sr_val r)) incs with
-           | None => false
-           | Some i => validate_changes c i (sr_attrs r)
-           end
-       end) curs.
+  && allows_multi_from reqs curs incs (repeat false (List.length incs)).
 
 Inductive rawval := RNoSub | RNil | RVal (j : json).
 
@@ -281,13 +308,6 @@ Record slot := mkSlot { sl_schema : schema; sl_multi : bool; sl_vid : nat }.
 Definition apply_slot (sl : slot) (cur inc : json) : ares :=
   if sl_multi sl then apply_multi (sl_schema sl) (valid_multi (sl_vid sl)) cur inc
   else apply_single (sl_schema sl) (valid_single (sl_vid sl)) cur inc.
-
-Fixpoint set_nth {A} (i : nat) (v : A) (l : list A) : list A :=
-  match l, i with
-  | [], _ => []
-  | _ :: r, O => v :: r
-  | x :: r, S k => x :: set_nth k v r
-  end.
 
 (* handleParameterChangeProposal *)
 Fixpoint run_changes (sls : list slot) (ps : list json) (chs : list (pref * option json))
